@@ -147,7 +147,7 @@ theorem candOk_iff (fs : FS) (cfg : Cfg) (keys : List Bytes) (S rel : List Bytes
     · rintro ⟨n, rfl, h1, h2, h3, h4, h5⟩; exact ⟨⟨⟨⟨h1, h2⟩, h3⟩, h4⟩, h5⟩
 
 theorem mem_walkCands_dir {fs : FS} {ord : List (List Bytes)} {cfg : Cfg} {src : Bytes} {keys : List Bytes}
-    {S : List Bytes} (hres : fs.resolve src = some (S, .dir)) (hroot : hidden (rootName src) = false)
+    {S : List Bytes} (hres : fs.resolve src = some (S, .dir)) (hroot : rootPruned fs src = false)
     (n c : Bytes) :
     (n, c) ∈ walkCands fs ord cfg src keys ↔
       ∃ rel, S ++ rel ∈ ord ∧ IsCandidate fs cfg keys S rel n ∧ c = join rel := by
@@ -182,7 +182,7 @@ def candFn (fs : FS) (cfg : Cfg) (keys : List Bytes) (S : List Bytes) (n : Bytes
 
 theorem namedPaths_walkCands_dir {fs : FS} {ord : List (List Bytes)} {cfg : Cfg} {src : Bytes}
     {keys : List Bytes} {S : List Bytes} (hres : fs.resolve src = some (S, .dir))
-    (hroot : hidden (rootName src) = false) (n : Bytes) :
+    (hroot : rootPruned fs src = false) (n : Bytes) :
     namedPaths (walkCands fs ord cfg src keys) n = ord.filterMap (candFn fs cfg keys S n) := by
   unfold walkCands namedPaths
   simp only [hres, hroot, Bool.false_eq_true, if_false]
@@ -265,7 +265,7 @@ theorem candFn_some_iff (fs : FS) (cfg : Cfg) (keys : List Bytes) (S : List Byte
 /-- exactly one candidate of that name in a duplicate-free walk: the candidate list is that one -/
 theorem candidatesFor_unique {fs : FS} {ord : List (List Bytes)} {cfg : Cfg} {src : Bytes}
     {keys : List Bytes} {S : List Bytes} (hS : cfg.sourceDir = some src)
-    (hres : fs.resolve src = some (S, .dir)) (hroot : hidden (rootName src) = false)
+    (hres : fs.resolve src = some (S, .dir)) (hroot : rootPruned fs src = false)
     (n : Bytes) (rel : List Bytes) (hord : ord.Nodup) (hmem : S ++ rel ∈ ord)
     (hc : IsCandidate fs cfg keys S rel n)
     (huniq : ∀ rel', S ++ rel' ∈ ord → IsCandidate fs cfg keys S rel' n → rel' = rel) :
@@ -283,7 +283,7 @@ theorem candidatesFor_unique {fs : FS} {ord : List (List Bytes)} {cfg : Cfg} {sr
 
 theorem mem_candidatesFor {fs : FS} {ord : List (List Bytes)} {cfg : Cfg} {src : Bytes}
     {keys : List Bytes} {S : List Bytes} (hS : cfg.sourceDir = some src)
-    (hres : fs.resolve src = some (S, .dir)) (hroot : hidden (rootName src) = false) (n c : Bytes) :
+    (hres : fs.resolve src = some (S, .dir)) (hroot : rootPruned fs src = false) (n c : Bytes) :
     c ∈ candidatesFor fs ord cfg keys n ↔
       ∃ rel, S ++ rel ∈ ord ∧ IsCandidate fs cfg keys S rel n ∧ c = join rel := by
   rw [candidatesFor_eq _ _ _ _ _ _ hS, namedPaths_walkCands_dir hres hroot, List.mem_filterMap]
@@ -296,7 +296,7 @@ theorem mem_candidatesFor {fs : FS} {ord : List (List Bytes)} {cfg : Cfg} {src :
 
 /-- a hidden source-dir name: `filter_entry` rejects the depth-0 entry and nothing is walked -/
 theorem fileToPaths_hidden_root (fs : FS) (ord : List (List Bytes)) (cfg : Cfg) (keys : List Bytes)
-    (s : Bytes) (hS : cfg.sourceDir = some s) (hroot : hidden (rootName s) = true) :
+    (s : Bytes) (hS : cfg.sourceDir = some s) (hroot : rootPruned fs s = true) :
     fileToPaths fs ord cfg keys = [] := by
   unfold fileToPaths walkCands
   simp only [hS, hroot, if_true]
@@ -606,27 +606,20 @@ theorem walkCands_ignore_append (fs : FS) (ord : List (List Bytes)) (cfg : Cfg) 
   | some r =>
     obtain ⟨S, k⟩ := r
     simp only [hr] at hG ⊢
-    by_cases hh : hidden (rootName src) = true
+    by_cases hh : rootPruned fs src = true
     · simp [hh]
     · simp only [hh, Bool.false_eq_true, if_false] at hG ⊢
       cases k with
       | file =>
         simp only at hG ⊢
-        by_cases hc : (isPartialExt src && (coveredNames keys).contains (rootName src) &&
-            !setMatch cfg.ignore []) = true
-        · simp only [hc, if_true] at hG
-          have hg := hG (rootName src, []) (by simp)
-          simp only [Bool.and_eq_true, Bool.not_eq_eq_eq_not, Bool.not_true] at hc
-          simp [hc.1.1, hc.2, setMatch_append, hg]
-        · simp only [Bool.and_eq_true, Bool.not_eq_eq_eq_not, Bool.not_true, not_and,
-            Bool.not_eq_false] at hc
-          by_cases h1 : isPartialExt src = true
-          · by_cases h2 : (coveredNames keys).contains (rootName src) = true
-            · have := hc ⟨h1, h2⟩
-              simp [h1, this, setMatch_append]
-            · have h2' : rootName src ∉ coveredNames keys := by simpa using h2
-              simp [h2']
-          · simp [h1]
+        by_cases hB : rootFileCand fs src keys = true
+        · by_cases hi : setMatch cfg.ignore [] = true
+          · simp [hB, hi, setMatch_append]
+          · simp only [hB, hi, Bool.not_false, Bool.and_self, if_true] at hG
+            have hg := hG (rootName src, []) (by simp)
+            simp only at hg
+            simp [hB, hi, setMatch_append, hg]
+        · simp [hB]
       | dir =>
         simp only at hG ⊢
         apply filterMap_congr'
